@@ -30,8 +30,8 @@ MANIFEST = {
     "note": "trusted: Lean kernel, python rig (origin on every universe address x port, DNS stub, clients bound to the universe's source addresses), loopback TCP",
     "technique": "Lean 4 proofs about the parse + evaluation model + end-to-end scenario correspondence with the rebuilt squid",
 }
-MINIMISE_BUDGET = 60
-MAX_REPORT = 4
+MINIMISE_BUDGET = 40
+MAX_REPORT = 2
 
 
 def build(stage):
